@@ -143,7 +143,7 @@ Definition run (x : sx) : sx :=
   (* recv() in one task while another task closes: the recorded multi-task trace of the pumped calls (recv, unwrap)
      through the pump model shared with C08; tagged with the state of the C08 fixes it was recorded in *)
   | L (A 5 :: A _ :: L labs :: L (B _ :: A flag :: _) :: _) =>
-      if Z.eqb flag ((if f_recheck tls_flags then 1 else 0) + (if f_skiplock tls_flags then 2 else 0)) then
+      if Z.eqb flag ((if f_recheck tls_flags then 1 else 0) + (if f_skiplock tls_flags then 2 else 0) + (if f_lazyread tls_flags then 4 else 0)) then
         match C08.run_trace labs with
         | L (acts :: results :: _) => L [acts; results]
         | other => other
